@@ -23,7 +23,15 @@ def check_script(ns, res, script, origin):
     nested = script.nested()
     if refmodel.to_nested_list(exprs) != nested:
         raise AssertionError('harness: parse of rendered script differs')
-    ns.smtlib.collect_information(exprs)
+    try:
+        ns.smtlib.collect_information(exprs)
+    except Exception as e:  # noqa
+        res.count('evaluations')
+        res.violation(
+            f'table-construction-raises:{type(e).__name__}',
+            f'collect_information raised {type(e).__name__}: {e} on a '
+            f'well-sorted script', {'script': text, 'origin': origin})
+        return 0
     dtnames = set()
     unames = set()
     for c in nested:
